@@ -48,10 +48,13 @@ def rule_compact(ctx):
     for n, sts in A.items():
         for st in sts:
             if isinstance(st.value, ast.Call) and (dotted(st.value.func) or "").split(".")[-1] == "unique" and st.value.args \
-                    and norm(st.value.args[0]) == "%s[%s]" % (OP, i):
+                    and norm(flow.resolve(st.value.args[0], at=st, depth=2, stop=(OP, i))) == "%s[%s]" % (OP, i):
                 U = (n, st)
     if U is None:
-        ctx.ob("_create_return.unique", False, "no `unique(original_pairs[i])` inside the loop", "unique original indices of row i", node=lp, func=f)
+        uq = [norm(c)[:60] for c in calls_in(lp, "unique")]
+        if not uq:
+            raise AnalysisError("_create_return: no unique(...) call inside the loop")
+        ctx.ob("_create_return.unique", False, "no `unique(original_pairs[i])` inside the loop (found %s)" % uq, "unique original indices of row i", node=lp, func=f)
         return
     u = U[0]
     ufun = dotted(U[1].value.func)
@@ -77,7 +80,7 @@ def rule_compact(ctx):
     okp = False
     fact = None
     for c in app:
-        v = flow.resolve(c.args[0], at=c, depth=1)
+        v = flow.resolve(c.args[0], at=c, depth=3, stop=(M, OP, i) if M else (OP, i))
         fact = norm(v)
         if M and fact == "%s[%s[%s]]" % (M, OP, i):
             okp = True
@@ -110,7 +113,17 @@ def rule_rows(ctx):
     if not loops:
         raise AnalysisError("_rows_for_secondaries: loop not found")
     lp = loops[0]
-    p = norm(lp.target)
+    from ..flow import elementwise
+    binds = elementwise(lp.target, lp.iter)
+    if binds is None:
+        raise AnalysisError("_rows_for_secondaries: loop header %s is not an element-wise iteration" % norm(lp.iter))
+    arg = f.params[0]
+    pvars = [k for k, v in binds.items() if norm(v) == "%s[_i]" % arg]
+    ivars = [k for k, v in binds.items() if norm(v) == "_i"]
+    if len(pvars) != 1:
+        ctx.ob("_rows_for_secondaries.position", False, "loop over %s" % norm(lp.iter), "one output row per pair, in pair order: the loop runs over the argument", node=lp, func=f)
+        return
+    p = pvars[0]
     read = inc = None
     for k, st in enumerate(lp.body):
         if isinstance(st, ast.Assign) and isinstance(st.value, ast.Subscript) and norm(st.value.slice) == p:
@@ -118,15 +131,24 @@ def rule_rows(ctx):
         if isinstance(st, ast.AugAssign) and isinstance(st.op, ast.Add) and isinstance(st.target, ast.Subscript) \
                 and norm(st.target.slice) == p and norm(st.value) == "1":
             inc = (k, st)
-    ok = read is not None and inc is not None and read[0] < inc[0] and norm(read[1].value.value) == norm(inc[1].target.value)
-    ctx.ob("_rows_for_secondaries.order", ok, "read: %s ; increment: %s" % (norm(read[1]) if read else None, norm(inc[1]) if inc else None),
+    if read is None or inc is None:
+        raise AnalysisError("_rows_for_secondaries: the read `rows[k] = count[p]` / the increment `count[p] += 1` were not found in the loop")
+    ok = read[0] < inc[0] and norm(read[1].value.value) == norm(inc[1].target.value)
+    ctx.ob("_rows_for_secondaries.order", ok, "read: %s ; increment: %s" % (norm(read[1]), norm(inc[1])),
            "rows[k] = count[p] is read BEFORE count[p] += 1 (rows start at 0, consecutive per reference point)", node=lp, func=f)
-    # the output position advances once per element and the loop runs over the argument
-    pos_ok = norm(lp.iter) == f.params[0]
-    tgt = norm(read[1].targets[0]) if read else ""
-    ctr = [st for st in lp.body if isinstance(st, ast.AugAssign) and isinstance(st.target, ast.Name) and norm(st.value) == "1"]
-    pos_ok = pos_ok and ((len(ctr) == 1 and tgt.endswith("[%s]" % ctr[0].target.id)) or "enumerate" in norm(lp.iter))
-    ctx.ob("_rows_for_secondaries.position", pos_ok, "loop over %s, output %s, counters %s" % (norm(lp.iter), tgt, [norm(c) for c in ctr]),
+    # the output position advances once per element
+    tgt = read[1].targets[0]
+    pos = norm(tgt.slice) if isinstance(tgt, ast.Subscript) else None
+    ctr = [st for st in lp.body if isinstance(st, ast.AugAssign) and isinstance(st.target, ast.Name) and isinstance(st.op, ast.Add) and norm(st.value) == "1"]
+    if pos in ivars:
+        pos_ok = not any(c.target.id == pos for c in ctr)
+    else:
+        pos_ok = len([c for c in ctr if c.target.id == pos]) == 1
+        if pos_ok:
+            # the manual counter starts at 0 before the loop
+            init = [d for d in flow.defs(pos, lp) if d != "param" and not any(d is x for x in ast.walk(lp))]
+            pos_ok = len(init) == 1 and isinstance(init[0], ast.Assign) and norm(init[0].value) == "0"
+    ctx.ob("_rows_for_secondaries.position", pos_ok, "loop over %s, output %s, counters %s" % (norm(lp.iter), norm(tgt), [norm(c) for c in ctr]),
            "one output row per pair, in pair order", node=lp, func=f)
 
 
@@ -162,7 +184,7 @@ def rule_binner(ctx):
     bd = A.get("binner_dims", [None])[0]
     okd = False
     if bd is not None and isinstance(bd.value, ast.List) and len(bd.value.elts) == 2:
-        d0, d1 = [norm(e).replace(" ", "") for e in bd.value.elts]
+        d0, d1 = [norm(flow.resolve(e, at=bd, depth=2, stop=(rname, prim))).replace(" ", "") for e in bd.value.elts]
         okd = d0 == "np.max(%s)+1" % rname and d1 in ("np.unique(%s).size" % prim, "np.max(%s)+1" % prim, "%s.max()+1" % prim)
     ctx.ob("collapse.binner_dims", okd, "binner_dims = %s" % (norm(bd.value) if bd else None),
            "[max(rows_in_bins) + 1, number of reference points, ...]", node=bd or f.node, func=f)
@@ -246,9 +268,12 @@ def rule_expand(ctx):
     flow = Flow(f)
     sels = {}
     for c in calls_in(f.node, "isel"):
-        for k in c.keywords:
-            if k.arg is None and isinstance(k.value, ast.Dict) and len(k.value.keys) == 1:
-                key, val = norm(k.value.keys[0]), norm(k.value.values[0])
+        dicts = [k.value for k in c.keywords if k.arg is None] + list(c.args[:1])
+        for dv in dicts:
+            dv = flow.resolve(dv, at=c, depth=1, stop=("groups", "pairs"))
+            if isinstance(dv, ast.Dict) and len(dv.keys) == 1 and dv.keys[0] is not None:
+                key = norm(flow.resolve(dv.keys[0], at=c, depth=2, stop=("groups", "pairs"))).replace('"', "'")
+                val = norm(flow.resolve(dv.values[0], at=c, depth=2, stop=("groups", "pairs")))
                 st = enclosing_stmt(c)
                 cond = [norm(a.test) for a in _ancestors_if(st)]
                 sels[key] = (val, cond, c)
